@@ -196,6 +196,10 @@ fn one_txin(rng: &mut R, out: &mut Out, t: &TxIn, tag: &str) {
         };
         out.count(which);
         out.count(&format!("{}.{}", which, if rep.pset_ids == rep.txin_ids { "agree" } else { "disagree" }));
+        if which == "excluded.index_3fffffff_both_flags" && rep.pset_ids != rep.txin_ids {
+            // recorded finding (known_findings.jsonl, class IDX-3FFFFFFF): format-level collision with the coinbase index
+            out.s_known("ids_agree_pset", "IDX-3FFFFFFF", || describe(t));
+        }
         if !idx_ok && iss_ok && t.previous_output.vout == (1 << 30) - 1 {
             // theorem ids_at_excluded_index: the PSET computes the ids of index 0xffffffff
             let e = o_ids(&txid, 0xffff_ffff, &t.asset_issuance);
